@@ -48,6 +48,12 @@ class Contract:
         self.hints = getattr(impl, "hints", None)
         self.self_classes = getattr(impl, "self_classes", None)
         self.pure = getattr(impl, "pure", False)
+        # functional contract: `value(s)` is a spec term that IS the result (used at call sites instead of a fresh
+        # constant constrained by the postcondition; needed where the result must stay a function of the arguments)
+        self.value = getattr(impl, "value", None)
+        # termination measure (tuple of terms, compared lexicographically) of a recursion group: at a call site inside a
+        # function under contract whose own contract has a measure, the callee's measure must be smaller
+        self.decreases = getattr(impl, "decreases", None)
 
     def clauses(self, which: str, s) -> List[Tuple[str, Any]]:
         fn = getattr(self, which)
@@ -71,6 +77,7 @@ class ClassSpec:
         # obligated when a base-class __init__ runs on an object of a subclass that is still under construction)
         self.whole_object: List[str] = list(getattr(impl, "whole_object", []) or [])
         self.props: Dict[str, Any] = dict(getattr(impl, "props", {}) or {})  # abstract property kinds (interfaces)
+        self.eq = getattr(impl, "eq", None)  # interface contract of `==` between instances: eq(a, b) -> clause
 
 
 class Registry:
